@@ -137,6 +137,9 @@ func (tx *Transaction) Deserialization(source *common.ZeroCopySource) error {
 	if eof {
 		return errors.New("[Deserialization] read sigs length error")
 	}
+	if l > constants.TX_MAX_SIG_SIZE {
+		return fmt.Errorf("[Deserialization] signature count %d over max %d", l, constants.TX_MAX_SIG_SIZE)
+	}
 	sigs := make([]Sig, l)
 	for i := 0; i < int(l); i++ {
 		var sig Sig
